@@ -55,6 +55,9 @@ func BigDecimalFloatToBigInt(value *apd.Decimal, maxBase10Exponent int) (*big.In
 }
 
 func BigDecimalFloatToUint(value *apd.Decimal) (uint64, error) {
+	if value.Negative && !value.IsZero() {
+		return 0, fmt.Errorf("%v is negative and cannot fit into an unsigned integer", value)
+	}
 	if i, err := value.Int64(); err == nil {
 		return uint64(i), nil
 	}
